@@ -84,6 +84,11 @@ func (g *incGen) includedBody(tag string, nested *S) []*S {
 			g.stats["loops-with-includer-loop-var"] = true
 			body = append(body, &S{K: "for", Name: "i", E: List(Int(7), Int(8)), Body: []*S{Print(Var("i")), Print(Attr(Var("loop"), "index"))}})
 		case 3:
+			// (once per template: a template defines a block name once)
+			if g.stats["defines-same-block"] {
+				body = append(body, Text("[no-second-block]"))
+				break
+			}
 			g.stats["defines-same-block"] = true
 			body = append(body, &S{K: "block", Name: "bk", Body: []*S{Text("[inc-block]")}})
 		case 4:
